@@ -21,7 +21,8 @@ FAULTS = [
                               ".set framevar = framevar / (framevar - framevar)", ".set framevar = low(undefined_sym)"]),
     ("undefined-symbol-if", [".if undefined_sym\n.endif", ".if 0\n.elif undefined_sym\n.endif", ".if 1 || undefined_sym\n.endif", ".if 0 && undefined_sym\n.endif"]),
     ("duplicate-label", ["main_label: nop"]),
-    ("error-directive", [".error \"stop\""]),
+    ("error-directive", [".error \"stop\"", ".error \"\"", ".error \" \"", ".error \"\t\"", ".error \"a;b\"", ".error \"x // y\"", "  .error \"indented\" ; why",
+                         ".ERROR_NOT", "lbl_e: .error \"after a label\""]),
     ("unknown-directive", [".frobnicate 1", ".list"]),
     ("branch-range", ["  breq far_label", "  brne pc+65", "  rjmp pc+2049", "  breq pc-64", "  rcall pc-2048"]),
     ("undef-unknown", [".undef never_defined", ".undef framereg\n.undef framereg"]),
@@ -139,7 +140,9 @@ def run(res):
         for li, l in enumerate(base):
             if li >= 7 and rng.random() < 0.25:
                 k = rng.choice(["message", "warning"])
-                txt = "t%d" % len(ls)
+                # any text is a message, the empty and the blank one included; nothing in it is interpreted
+                txt = rng.choice(["t%d" % len(ls)] * 4 + ["", " ", " \t ", "a;b", "x // y", "/* z */", "50%", "in line: 7", "error: no", "é", "it's",
+                                                           "  padded  ", "m" * 70, ".error", "@0", "\\", ","])
                 form = rng.randrange(4)
                 if form == 0:
                     ls.append('.%s "%s"' % (k, txt))
